@@ -9,7 +9,7 @@
   * `diffquot_error`     : `|(g(t+δ) - g t)/δ - g' t| ≤ M₂ |δ| / 2`, `δ ≠ 0` of either sign;
   * `centraldiff_error`  : the same bound for `(g(t+δ) - g(t-δ)) / (2δ)` (only `|g''| ≤ M₂` used).
   Jacobian:
-  * `jacobian_entries_real` : over ℝ the restore `x_j + δ - δ` is exact, `jacobian_entries` applies
+  * `jacobian_entries_real` : the restore is exact (saved coordinate put back), `jacobian_entries` applies
       with the only hypothesis `δ ≠ 0`: entry `(i,j)` is `(F_i(x + δ e_j) - F_i(x)) / δ`;
   * `jacobian_accuracy`     : `|J i j - ∂F_i/∂x_j (x)| ≤ M₂ |δ| / 2` for EVERY shape `m × n`;
   * `jacobian_accuracy_fin`, `jacobian_accuracy_fderiv` : the same for the array form of a map
@@ -182,7 +182,7 @@ theorem modify_add_zero (x : Array ℝ) (j : ℕ) : x.modify j (fun p => p + (0 
 theorem getD_of_lt (a : Array ℝ) (i : ℕ) (h : i < a.size) : a.getD i 0 = a[i] := by
   simp [Array.getD, h]
 
-/-- **entries over ℝ**: the restore `x_j + δ - δ = x_j` is exact, so for `δ ≠ 0` and a map of
+/-- **entries over ℝ**: the restore is exact (the saved `x_j` is put back), so for `δ ≠ 0` and a map of
     constant output size `m` the call succeeds, evaluates `F` at `x` and at `x + δ e_j`
     (`j = 0, …, n-1`, in this order) and returns the well-formed `m × n` matrix whose entry `(i,j)`
     is the difference quotient `(F_i(x + δ e_j) - F_i(x)) / δ` — for every shape. -/
